@@ -14,7 +14,7 @@ use std::time::Duration;
 
 pub static PROP: Prop = Prop {
     id: "C14",
-    rule: "cases: in a fresh child process per case, a chain of 1-4 handlers, each of one of 7 kinds {global function, prefix operator, infix operator, postfix operator, context function called as f(...), context function reached by the bare name f, context function read as an assignment target (f = 1)}; every handler but the last re-enters the engine by executing a program that invokes the next handler; the last performs one of 10 re-entrant actions {parse_expression, execute with a fresh context (program using functions and all operator kinds), execute on the SAME context (read), execute on the same context (assignment), register_function, register_prefix_op, register_infix_op, register_postfix_op, lock the evaluating context's public handle and read it, get_variable/set_variable through a second handle}. Oracle (1, deterministic): the first thing every handler does is try_lock on all four registries, the descriptor store and the evaluating context: on this single-threaded evaluation every lock must be free; (2, behavioural): the action is really performed under a 10 s watchdog (normal: microseconds) and the outer evaluation must return the value computed by hand from the chain. The 7 x 10 single-handler matrix is enumerated exhaustively; chains are generated. Non-trivial: every case (each combines handler kinds with a re-entrant action); distinct by (kind chain, action).",
+    rule: "cases: in a fresh child process per case, a chain of 1-4 handlers, each of one of 8 kinds {global function, prefix operator, infix operator, postfix operator, SETTER operator, context function called as f(...), context function reached by the bare name f, context function read as an assignment target (f = 1)}; every handler but the last re-enters the engine by executing a program that invokes the next handler; the last performs one of 10 re-entrant actions {parse_expression, execute with a fresh context (program using functions and all operator kinds), execute on the SAME context (read), execute on the same context (assignment), register_function, register_prefix_op, register_infix_op, register_postfix_op, lock the evaluating context's public handle and read it, get_variable/set_variable through a second handle}. Oracle (1, deterministic): the first thing every handler does is try_lock on all four registries, the descriptor store and the evaluating context: on this single-threaded evaluation every lock must be free; (2, behavioural): the action is really performed under a 10 s watchdog (normal: microseconds) and the outer evaluation must return the value computed by hand from the chain. The 8 x 10 single-handler matrix is enumerated exhaustively; chains are generated. Non-trivial: every case (each combines handler kinds with a re-entrant action); distinct by (kind chain, action).",
     assumptions: &[
         "a watchdog expiry must reproduce on two more runs to count as a deadlock; the try_lock probe gives the precise lock",
         "lock state of the registries is read through the cfg-guarded locks_free() hook",
@@ -37,7 +37,7 @@ fn budget(t: Tier) -> Budget {
     }
 }
 
-pub const KINDS: [&str; 7] = ["global-function", "prefix-op", "infix-op", "postfix-op", "ctx-function-call", "ctx-function-bare", "ctx-function-assign-target"];
+pub const KINDS: [&str; 8] = ["global-function", "prefix-op", "infix-op", "postfix-op", "setter-op", "ctx-function-call", "ctx-function-bare", "ctx-function-assign-target"];
 pub const ACTIONS: [&str; 10] = [
     "parse", "execute-fresh", "execute-same-context-read", "execute-same-context-assign", "register-function", "register-prefix", "register-infix", "register-postfix",
     "lock-context-handle", "second-handle-get-set",
@@ -64,14 +64,16 @@ fn program_for(kind: &str, level: usize) -> String {
         "prefix-op" => format!("(vh_cp{} 1) + 1", level),
         "infix-op" => format!("(1 vh_ci{} 2) + 1", level),
         "postfix-op" => format!("(1 vh_cq{}) + 1", level),
-        "ctx-function-call" => format!("cf{}(1) + 1", level),
-        "ctx-function-bare" => format!("cf{} + 1", level),
-        _ => format!("cf{} = 1", level),
+        "setter-op" => format!("x vh_cs{} 1", level),
+        // the same name at every level: each level has its own context
+        "ctx-function-call" => "cf(1) + 1".to_string(),
+        "ctx-function-bare" => "cf + 1".to_string(),
+        _ => "cf = 1".to_string(),
     }
 }
 
 fn expected_for(kind: &str) -> &'static str {
-    if kind == "ctx-function-assign-target" {
+    if kind == "ctx-function-assign-target" || kind == "setter-op" {
         "none"
     } else {
         "n11"
@@ -82,7 +84,7 @@ fn context_for(kind: &str, level: usize) -> Context {
     let mut ctx = Context::new();
     ctx.set_variable("v0", Value::from(5));
     if kind.starts_with("ctx-function") {
-        ctx.set_func(&format!("cf{}", level), Arc::new(move |_| body(level)));
+        ctx.set_func("cf", Arc::new(move |_| body(level)));
     }
     ctx
 }
@@ -186,6 +188,7 @@ pub fn worker() -> i32 {
             "prefix-op" => register_prefix_op(&format!("vh_cp{}", i), Arc::new(move |_| body(i))),
             "infix-op" => register_infix_op(&format!("vh_ci{}", i), 130, InfixOpType::CALC, InfixOpAssociativity::LEFT, Arc::new(move |_, _| body(i))),
             "postfix-op" => register_postfix_op(&format!("vh_cq{}", i), Arc::new(move |_| body(i))),
+            "setter-op" => register_infix_op(&format!("vh_cs{}", i), 20, InfixOpType::SETTER, InfixOpAssociativity::RIGHT, Arc::new(move |_, _| body(i))),
             _ => {}
         }
     }
@@ -198,7 +201,11 @@ pub fn worker() -> i32 {
     // after the evaluation: the assignment-target kind must have replaced the function binding
     if plan.chain[0] == "ctx-function-assign-target" {
         let c = CONTEXTS.lock().unwrap()[0].as_ref().map(share).unwrap();
-        say(&format!("binding {:?}", c.get_variable("cf0").map(|v| V::from_value(&v).key())));
+        say(&format!("binding {:?}", c.get_variable("cf").map(|v| V::from_value(&v).key())));
+    }
+    if plan.chain[0] == "setter-op" {
+        let c = CONTEXTS.lock().unwrap()[0].as_ref().map(share).unwrap();
+        say(&format!("binding {:?}", c.get_variable("x").map(|v| V::from_value(&v).key())));
     }
     say("done");
     0
@@ -266,7 +273,10 @@ fn run_case(chain: &[&str], action: &str, env: &Env, st: &mut Stats) -> CaseResu
                     }
                 }
                 if chain[0] == "ctx-function-assign-target" && !out.stdout.contains("binding Some(\"n1\")") {
-                    return Err(Failure::new("wrong-binding:ctx-function-assign-target", format!("after `cf0 = 1` the name is not bound to 1; output:\n{}", out.stdout), scenario));
+                    return Err(Failure::new("wrong-binding:ctx-function-assign-target", format!("after `cf = 1` the name is not bound to 1; output:\n{}", out.stdout), scenario));
+                }
+                if chain[0] == "setter-op" && !out.stdout.contains("binding Some(\"n10\")") {
+                    return Err(Failure::new("wrong-binding:setter-op", format!("after `x vh_cs0 1` x is not bound to the handler's result; output:\n{}", out.stdout), scenario));
                 }
                 return Ok(());
             }
